@@ -102,6 +102,70 @@ def exact_history(rng, hid, lang, maxlen, params):
     return h
 
 
+R4 = 2      # box radius of the four-variable family (9^4 points in the comparison box)
+
+
+def closure4_history(rng, hid, lang, params):
+    """directed family over FOUR variables (the closure of a path through all variables): a chain
+    s_2 v_2 - s_1 v_1 <= k_1, ..., s_4 v_4 - s_3 v_3 <= k_3  (all signs + for zones) and weaker, redundant constraints between
+    the same and more distant end points, added to two registers in two different orders (redundant ones often FIRST, so
+    that a later constraint tightens an edge that already exists); then the implied constraints between distant variables
+    are queried, both registers are compared in both directions, and joined / met / projected."""
+    nv = 4
+    perm = rng.sample([1, 2, 3, 4], 4)
+    sg = {v: (1 if lang == "zone" or rng.random() < 0.6 else -1) for v in perm}
+    ks = [rng.randint(-1, 1) for _ in range(3)]
+
+    def edge(i, j, k):      # s_j v_j - s_i v_i <= k
+        return {"e": {"k": -k, "t": [[sg[perm[j]], perm[j]], [-sg[perm[i]], perm[i]]]}, "r": "le"}
+    tight = [edge(i, i + 1, ks[i]) for i in range(3)]
+    redundant = []
+    for i in range(4):
+        for j in range(i + 1, 4):
+            if rng.random() < 0.6:
+                redundant.append(edge(i, j, sum(ks[i:j]) + rng.randint(1, 4)))
+    if rng.random() < 0.4:
+        i, j = sorted(rng.sample(range(4), 2))
+        redundant.append(edge(j, i, rng.randint(0, 4)))     # an edge in the other direction
+    steps = [{"op": "box", "r": r, "ord": box_order(rng, nv)} for r in (1, 2, 3)]
+    orders = []
+    for r in (1, 2):
+        if rng.random() < 0.6:
+            a, b = redundant[:], tight[:]
+            rng.shuffle(a)
+            rng.shuffle(b)
+            o = a + b
+        else:
+            o = redundant + tight
+            rng.shuffle(o)
+        orders.append(o)
+    for r, o in zip((1, 2), orders):
+        for c in o:
+            steps.append({"op": "assume", "r": r, "c": c})
+    implied = [edge(i, j, sum(ks[i:j])) for i in range(4) for j in range(i + 1, 4) if j - i >= 2]
+    for r in (1, 2):
+        for c in implied:
+            steps.append({"op": "entails", "r": r, "c": c})
+        c = rng.choice(implied)
+        steps.append({"op": "entails", "r": r, "c": {"e": {"k": c["e"]["k"] + 1, "t": c["e"]["t"]}, "r": "le"}})   # one tighter: not implied
+    steps.append({"op": "leq", "r": 0, "a": 1, "b": 2})
+    steps.append({"op": "leq", "r": 0, "a": 2, "b": 1})
+    tail = rng.choice(["join", "meet", "forget", "none"])
+    if tail == "join":
+        steps.append({"op": "assume", "r": 3, "c": rng.choice(tight)})
+        steps.append({"op": "join", "r": 3, "a": 1, "b": 3})
+    elif tail == "meet":
+        steps.append({"op": "assume", "r": 3, "c": lang_cst(rng, lang, nv)})
+        steps.append({"op": "meet", "r": 3, "a": 3, "b": rng.choice([1, 2])})
+    elif tail == "forget":
+        steps.append({"op": "forgetbox", "r": 1, "v": perm[rng.choice([1, 2])], "how": "forget", "ord": [1, -1]})
+        steps.append({"op": "entails", "r": 1, "c": implied[-1]})
+    h = {"id": hid, "mode": "exact", "lang": lang, "R": R4, "nv": nv, "nregs": 3, "steps": steps, "family": "closure4"}
+    if params:
+        h["params"] = params
+    return h
+
+
 def lift_history(rng, hid, maxlen, params):
     nv = 3
     ints = [1, 2, 3]
@@ -122,8 +186,8 @@ def lift_history(rng, hid, maxlen, params):
     return h
 
 
-def bound_cst(sign, v):
-    return {"e": {"k": -R, "t": [[sign, v]]}, "r": "le"}     # sign*v - R <= 0
+def bound_cst(sign, v, rad=R):
+    return {"e": {"k": -rad, "t": [[sign, v]]}, "r": "le"}     # sign*v - rad <= 0
 
 
 def expand(h):
@@ -135,7 +199,7 @@ def expand(h):
         if op == "box":
             prim.append({"op": "top", "r": st["r"], "inplace": 0})
             for s, v in st["ord"]:
-                prim.append({"op": "stmt", "r": st["r"], "s": {"op": "assume", "c": bound_cst(s, v)}})
+                prim.append({"op": "stmt", "r": st["r"], "s": {"op": "assume", "c": bound_cst(s, v, h["R"])}})
         elif op == "assume":
             prim.append({"op": "stmt", "r": st["r"], "s": {"op": "assume", "c": st["c"]}})
         elif op == "forgetbox":
@@ -144,11 +208,11 @@ def expand(h):
             else:
                 prim.append({"op": "forget", "r": st["r"], "vs": [st["v"]]})
             for s in st.get("ord", [1, -1]):
-                prim.append({"op": "stmt", "r": st["r"], "s": {"op": "assume", "c": bound_cst(s, st["v"])}})
+                prim.append({"op": "stmt", "r": st["r"], "s": {"op": "assume", "c": bound_cst(s, st["v"], h["R"])}})
         else:   # join meet copy entails leq isbot stmt: same primitive step
             prim.append({k: v for k, v in st.items()})
         last.append(len(prim) - 1)
-    names = ["x", "y", "z"]
+    names = ["x", "y", "z", "w", "u"]
     ph = {"id": h["id"], "vars": [{"n": names[i], "t": "int"} for i in range(h["nv"])], "nregs": h["nregs"], "steps": prim, "stutter": 0}
     if h.get("params"):
         ph["params"] = h["params"]
@@ -255,7 +319,7 @@ def judge(ck, label, traces, timeout=1500, count=True, rounds=None):
         with open(sp, "w") as f:
             json.dump(classes, f)
         r = tlc("ExactOps", "ExactOps", "c12-%s-%d" % (label, rnd),
-                env={"EXACT_TRACES": tp, "KNOWN_FINDINGS": kp, "SEEN_SIGS": sp, "EXACT_R": R}, cont=False, timeout=timeout)
+                env={"EXACT_TRACES": tp, "KNOWN_FINDINGS": kp, "SEEN_SIGS": sp, "EXACT_R": traces[0]["R"]}, cont=False, timeout=timeout)
         if count:
             ck.add_tlc(r, "ExactOps/%s/%d" % (label, rnd))
         if "InLanguage" in r.violated:
@@ -388,6 +452,14 @@ def run(tier, seed):
             hs.append(lift_history(ck.rng, hid, maxlen, ck.rng.choice(PARAMS)))
         batches.append(("lift" + str(done // chunk_lift), hs))
         done += m
+    n4 = 60 if tier == "quick" else 600
+    for lang in ("zone", "oct"):
+        for c0 in range(0, n4, 300):
+            hs = []
+            for _ in range(min(300, n4 - c0)):
+                hid += 1
+                hs.append(closure4_history(ck.rng, hid, lang, ck.rng.choice(PARAMS)))
+            batches.append(("%sclosure4_%d" % (lang, c0 // 300), hs))
     failed_fams = set()
     only = os.environ.get("C12_ONLY")       # developer option: restrict to one family (itv|zone|oct|lift)
     for label, hs in batches:
